@@ -111,7 +111,11 @@ fn live(t: &Tbl, pos: usize, with_deleted: bool) -> Vec<u64> {
 /// brute force: the reference result and the finding-class predicate
 fn reference(t: &Tbl, c: &Case) -> (Vec<(u64, u64)>, bool) {
     let nf = t.frags.len();
-    let is_full = |pos: usize, off: u64| c.full.as_ref().map(|f| f[pos].contains(&off)).unwrap_or(true);
+    // without a full filter (take-style read) the answer is the Exact mask on covered fragments, every row elsewhere
+    let is_full = |pos: usize, off: u64| match &c.full {
+        Some(f) => f[pos].contains(&off),
+        None => c.matched[pos].as_ref().filter(|_| c.index.is_some()).map(|m| m.contains(&off)).unwrap_or(true),
+    };
     // rows inside the before-filter range, per fragment
     let mut per_frag: Vec<Vec<u64>> = vec![];
     let mut g = 0u64;
@@ -246,6 +250,7 @@ fn gen_case(rng: &mut Rng, t: &Tbl, corpus: Option<&str>) -> (Case, bool) {
     };
     let has_refine = rng.chance(1, 3);
     let guaranteed = !rng.chance(1, 10);
+    let with_deleted = rng.chance(1, 20);
     // indexed part I, refine part R, full = I and R
     let dens = rng.range(1, 4);
     let idx_t: Vec<Vec<u64>> = (0..nf).map(|_| subset(rng, &all, dens, 4)).collect();
@@ -270,7 +275,7 @@ fn gen_case(rng: &mut Rng, t: &Tbl, corpus: Option<&str>) -> (Case, bool) {
                 match k {
                     Kind::Exact => {
                         // truth on live rows; anything on deleted rows
-                        let dels = t.frags[p].1.clone().unwrap_or_default();
+                        let dels = if with_deleted { vec![] } else { t.frags[p].1.clone().unwrap_or_default() };
                         all.iter().filter(|o| if dels.contains(o) { rng.bool() } else { idx_t[p].contains(o) }).cloned().collect()
                     }
                     Kind::AtMost => all.iter().filter(|o| idx_t[p].contains(o) || rng.chance(1, 3)).cloned().collect(),
@@ -296,7 +301,6 @@ fn gen_case(rng: &mut Rng, t: &Tbl, corpus: Option<&str>) -> (Case, bool) {
         };
         s..e
     };
-    let with_deleted = rng.chance(1, 20);
     let has_full = !(index == Some(Kind::Exact) && !has_refine && guaranteed && rng.chance(1, 8));
     let mut c = Case {
         before: if !with_deleted && rng.chance(1, 3) { Some(range(rng, total)) } else { None },
